@@ -35,12 +35,31 @@ func AddFamilies(t *rapid.T, w *World, pf Profile) {
 		}
 		preempt := pickS(t, "famPreemptibility", "preemptible", "preemptible", "non-preemptible")
 		k := between(t, 2, 5, "famSize")
+		extreme := chance(t, 3, "famExtremePriorities")
+		if extreme {
+			if len(w.PriorityClasses) == 0 {
+				w.PriorityClasses = DefaultPriorityClasses()
+			}
+			have := map[string]bool{}
+			for _, pc := range w.PriorityClasses {
+				have[pc.Name] = true
+			}
+			for _, pc := range []PriorityClass{{Name: "p-max", Value: 2000000000}, {Name: "p-high", Value: 1000000000}, {Name: "p-low", Value: -1200000000}, {Name: "p-min", Value: -2147483648}} {
+				if !have[pc.Name] {
+					w.PriorityClasses = append(w.PriorityClasses, pc)
+				}
+			}
+		}
 		used := map[int]bool{}
 		for m := 0; m < k; m++ {
 			g := Group{Name: fmt.Sprintf("f%dm%d", f, m), Queue: queue, MinMember: min, Preemptibility: preempt, Family: fmt.Sprintf("f%d", f)}
 			g.PriorityClass = pickS(t, "famPrio", "train", "build-preemptible", "build", "inference")
 			if chance(t, 5, "famSamePrio") {
 				g.PriorityClass = "train"
+			}
+			if extreme {
+				// the whole int32 range is legal for a PriorityClass; preemptibility is explicit in a family
+				g.PriorityClass = pickS(t, "famPrioExtreme", "p-max", "p-high", "p-low", "p-min", "train", "inference")
 			}
 			c := between(t, 1, 40, "famCreated") * 3
 			for used[c] {
